@@ -131,7 +131,7 @@ v("C12-aaaa-as-bytes", "C12", ["C12.T4", "C12.T2"], "dns/message.go", """		v := 
 			return rr, ErrDecodeError
 		}
 		rr.Data = v""")
-v("C12-no-backwards-check", "C12", [], "dns/message.go", "			if int(offset) >= len(d.raw) || uintptr(unsafe.Pointer(&d.raw[offset])) >= current {", "			if _ = current; int(offset) >= len(d.raw) {", "only the budgets bound the walk now: termination still holds, C13.PTR reports the missing test")
+v("C12-no-backwards-check", "C13", ["C13.PTR"], "dns/message.go", "			if int(offset) >= len(d.raw) || uintptr(unsafe.Pointer(&d.raw[offset])) >= current {", "			if _ = current; int(offset) >= len(d.raw) {", "only the budgets bound the walk now: termination still holds, C13.PTR reports the missing test")
 # C13
 v("C13-swap-hint-keys", "C13", ["C13.RDATA"], "dns/message.go", None, None, "swap keys 4 and 6 in encoder and decoder")
 v("C13-padding-plus-three", "C13", ["C13.PAD"], "dns/message.go", "padSize := (128 - (len(m.Bytes())+4)%128) % 128", "padSize := (128 - (len(m.Bytes())+3)%128) % 128")
